@@ -257,6 +257,7 @@ class Verdict:
     key: Any = None             # canonical form for distinct counting
     finding: str | None = None  # id of a known finding class this violation belongs to
     tags: tuple = ()            # distribution tags
+    drift: str = ""             # model drift observed next to a non-"ok" status (diagnostic, recorded like status "drift")
 
 
 @dataclass
@@ -270,6 +271,7 @@ class Run:
     samples: list = field(default_factory=list)
     dist: dict = field(default_factory=dict)
     drift: list = field(default_factory=list)
+    drift_total: int = 0
     violations: list = field(default_factory=list)      # (case, verdict)
     known: dict = field(default_factory=dict)           # finding id -> (count, example)
     exhaustive: bool = False
@@ -283,8 +285,10 @@ class Run:
             self.dist[t] = self.dist.get(t, 0) + 1
         if len(self.samples) < 6 and v.nontrivial and (self.evaluations % 97 == 1 or len(self.samples) < 2):
             self.samples.append(case)
-        if v.status == "drift" and len(self.drift) < 20:
-            self.drift.append({"case": case, "what": v.what})
+        if v.status == "drift" or v.drift:
+            self.drift_total += 1
+            if len(self.drift) < 20:
+                self.drift.append({"case": case, "what": v.what if v.status == "drift" else v.drift})
         if v.status == "violation":
             if v.finding:
                 c, ex = self.known.get(v.finding, (0, None))
@@ -361,7 +365,7 @@ def finish(run: Run, b: BuildResult, level_rule: str, assumptions: list[str], ex
         "distribution": dict(sorted(run.dist.items())),
         "exhaustive": run.exhaustive,
         "model_drift": run.drift[:10],
-        "model_drift_count": len(run.drift),
+        "model_drift_count": run.drift_total,
         "gen_errors": b.gen_errors_for_prop,
         "broken": b.broken,
         "known_findings": known_out,
@@ -381,6 +385,6 @@ def finish(run: Run, b: BuildResult, level_rule: str, assumptions: list[str], ex
         print(f"AUDIT-FAILURE: axioms={bad_axioms} forbidden={b.forbidden_hits}", file=sys.stderr)
         return 2 if exit_code == 0 else exit_code
     print(f"{run.prop} {run.tier}: {run.evaluations} cases, {len(run.keys)} distinct non-trivial, "
-          f"{len(discharged)}/{len(b.expected)} obligations, drift={len(run.drift)}, "
+          f"{len(discharged)}/{len(b.expected)} obligations, drift={run.drift_total}, "
           f"known={sum(c for c, _ in run.known.values())}, violations={len(run.violations)}, {ev['wall_s']}s")
     return exit_code
